@@ -14,6 +14,13 @@
                            not a robot attribute yet), in declaration order;
    [robot_injectables r]   public non-method non-property robot attributes
                            (class level and createObjects level alike);
+   [dir_entry r n]         the entry of dir(robot) called n: name, value and kind
+                           KPlain (not callable) | KCallable (callable, not a
+                           bound method: object with __call__, functools.partial,
+                           class, function on the instance / staticmethod,
+                           builtin) | KMethod (inspect.ismethod) | KDescriptor
+                           (property / tunable on the class);
+   [injectable_attr a]     a is public, not "logger", KPlain or KCallable;
    [all_injectables r]     robot_injectables plus ALL components;
    [injectables_with r b]  robot_injectables plus the components b;
    [pick inj c n]          inj[n] if that is not None, else inj["<c>_<n>"];
@@ -183,6 +190,76 @@ Theorem C08_none_is_absent : forall inj c n,
   get inj n = None -> pick inj c n = get inj (prefixed c n).
 Proof. exact none_is_absent. Qed.
 
+(* What the robot's own attributes contribute (MagicRobot._collect_injectables,
+   dir() has distinct names): the value stored under n -- whether or not it is
+   callable -- unless n is private, "logger", a property/tunable of the class
+   or a BOUND METHOD; nothing else is filtered, nothing is added. *)
+Theorem C08_robot_injectables_exact : forall r n,
+  NoDup (map ra_name (r_dir r)) ->
+  get (robot_injectables r) n =
+  match dir_entry r n with
+  | Some a => if injectable_attr a then ra_value a else None
+  | None => None
+  end.
+Proof. exact robot_injectables_exact. Qed.
+
+(* Hence: when the robot stores an object o under the public name n (any object
+   that is not a bound method: callable objects, partials and classes included),
+   every public unset attribute n of every component holds o -- that very
+   object -- at the first setup() and at the end, and o is an instance of the
+   annotated type ... *)
+Theorem C08_robot_attr_delivered : forall r s, startup subclass r = Ok s ->
+  NoDup (map ra_name (r_dir r)) -> NoDup (map fst (r_hints r)) ->
+  forall c d n h a o, In (c, d) (components r) -> In (n, h) (k_hints (c_class d)) ->
+    is_private n = false -> comp_has d n = false ->
+    dir_entry r n = Some a -> injectable_attr a = true -> ra_value a = Some o ->
+    attr_at r (before_first_setup (trace_of r s)) (TComp c) n = Is (Some o) /\
+    attr_at r (trace_of r s) (TComp c) n = Is (Some o) /\
+    exists T, hint_type h = Some T /\ subclass (ocls o) T = true.
+Proof. exact (robot_attr_delivered_comp subclass). Qed.
+
+(* ... the same for autonomous modes ... *)
+Theorem C08_robot_attr_delivered_modes : forall r s, startup subclass r = Ok s ->
+  NoDup (map ra_name (r_dir r)) -> NoDup (map fst (r_hints r)) ->
+  forall md n h a o, In md (r_modes r) -> In (n, h) (m_hints md) ->
+    is_private n = false -> mode_has md n = false ->
+    dir_entry r n = Some a -> injectable_attr a = true -> ra_value a = Some o ->
+    attr_at r (before_first_setup (trace_of r s)) (TMode (m_name md)) n = Is (Some o) /\
+    attr_at r (trace_of r s) (TMode (m_name md)) n = Is (Some o) /\
+    exists T, hint_type h = Some T /\ subclass (ocls o) T = true.
+Proof. exact (robot_attr_delivered_mode subclass). Qed.
+
+(* ... and for constructor parameters: the component's __init__ is called with
+   p = o. *)
+Theorem C08_robot_attr_ctor_delivered : forall r s, startup subclass r = Ok s ->
+  NoDup (map ra_name (r_dir r)) -> NoDup (map fst (r_hints r)) ->
+  forall before c d after p h a o, components r = before ++ (c, d) :: after ->
+    In (p, h) (k_init_hints (c_class d)) ->
+    dir_entry r p = Some a -> injectable_attr a = true -> ra_value a = Some o ->
+    exists kw,
+      nth_error (st_comps s) (List.length before)
+        = Some {| cr_name := c; cr_def := d; cr_kwargs := kw |} /\
+      In (p, o) kw /\ exists T, hint_type h = Some T /\ subclass (ocls o) T = true.
+Proof. exact (robot_attr_ctor_delivered subclass). Qed.
+
+(* A request for the name of such a robot attribute whose value is an instance
+   of the annotated type is never the reason startup fails (it is none of the
+   faults of C08_fail_iff), whatever components [cs] exist at that moment:
+   "startup fails only if no such object exists or it is mistyped". *)
+Theorem C08_robot_attr_serves : forall r cs c n h T a o,
+  NoDup (map ra_name (r_dir r)) -> NoDup (map fst cs) ->
+  (forall k d, In (k, d) cs -> In (k, d) (components r)) ->
+  dir_entry r n = Some a -> injectable_attr a = true -> ra_value a = Some o ->
+  hint_type h = Some T -> subclass (ocls o) T = true ->
+  ~ request_fails subclass (injectables_with r cs) c n h.
+Proof. exact (robot_attr_serves subclass). Qed.
+
+(* Whether a stored object is callable changes nothing at all: the robot with
+   every KCallable attribute re-declared KPlain starts (or fails) identically. *)
+Theorem C08_callable_irrelevant : forall r,
+  startup subclass (robot_forget_callable r) = startup subclass r.
+Proof. exact (callable_irrelevant subclass). Qed.
+
 End C08.
 
 (* ====================================================================== *)
@@ -305,6 +382,46 @@ Example C08_nv_none_valued_attribute_is_absent :
     [ {| ra_name := "x"; ra_kind := KPlain; ra_value := None |} ]) = Err EInject.
 Proof. vm_compute. reflexivity. Qed.
 
+(* callable robot attributes: a response curve (instance of class 10 with
+   __call__), a functools.partial (class 12) and a class object (class 13,
+   type) are injected by name, as attribute and as constructor parameter;
+   a bound method under the requested name is not an injectable *)
+Definition o_curve := {| oid := 6; ocls := 10; otruthy := true |}.
+Definition o_partial := {| oid := 7; ocls := 12; otruthy := true |}.
+Definition o_klass := {| oid := 8; ocls := 13; otruthy := true |}.
+Definition k_user : classdef :=
+  {| k_cls := 22; k_init_hints := [("curve", HType 10)];
+     k_hints := [("scaler", HType 12); ("kind", HType 13); ("curve", HType 0)];
+     k_preset := []; k_setup := true |}.
+Definition d_user := {| c_oid := 102; c_truthy := true; c_class := k_user |}.
+Definition callable_dir : list rattr :=
+  [ {| ra_name := "curve"; ra_kind := KCallable; ra_value := Some o_curve |};
+    {| ra_name := "helper"; ra_kind := KMethod; ra_value := Some o_other |};
+    {| ra_name := "kind"; ra_kind := KCallable; ra_value := Some o_klass |};
+    {| ra_name := "scaler"; ra_kind := KCallable; ra_value := Some o_partial |} ].
+Definition callable_robot : robot :=
+  {| r_dir := callable_dir; r_hints := [("user", RClass d_user)]; r_modes := [] |}.
+Example C08_nv_callables_injected :
+  startup ex_sub callable_robot =
+  Ok {| st_comps := [ {| cr_name := "user"; cr_def := d_user; cr_kwargs := [("curve", o_curve)] |} ];
+        st_updates := [ (TComp "user", [("scaler", o_partial); ("kind", o_klass); ("curve", o_curve)]) ] |}.
+Proof. vm_compute. reflexivity. Qed.
+Example C08_nv_callable_hypotheses :
+  NoDup (map ra_name (r_dir callable_robot)) /\ NoDup (map fst (r_hints callable_robot)) /\
+  components callable_robot = [] ++ ("user", d_user) :: [] /\
+  dir_entry callable_robot "curve"
+    = Some {| ra_name := "curve"; ra_kind := KCallable; ra_value := Some o_curve |} /\
+  injectable_attr {| ra_name := "curve"; ra_kind := KCallable; ra_value := Some o_curve |} = true /\
+  get (robot_injectables callable_robot) "helper" = None.
+Proof.
+  repeat split; try (vm_compute; reflexivity);
+    repeat constructor; simpl; intuition discriminate.
+Qed.
+Example C08_nv_bound_method_not_injected :
+  startup ex_sub (one_comp [("helper", HType 0)]
+    [ {| ra_name := "helper"; ra_kind := KMethod; ra_value := Some o_other |} ]) = Err EInject.
+Proof. vm_compute. reflexivity. Qed.
+
 Print Assumptions C08_attr_exact.
 Print Assumptions C08_attr_exact_modes.
 Print Assumptions C08_injectables_are_attrs_and_all_components.
@@ -322,3 +439,9 @@ Print Assumptions C08_fail_inject_iff.
 Print Assumptions C08_error_class.
 Print Assumptions C08_falsy_injects.
 Print Assumptions C08_none_is_absent.
+Print Assumptions C08_robot_injectables_exact.
+Print Assumptions C08_robot_attr_delivered.
+Print Assumptions C08_robot_attr_delivered_modes.
+Print Assumptions C08_robot_attr_ctor_delivered.
+Print Assumptions C08_robot_attr_serves.
+Print Assumptions C08_callable_irrelevant.
